@@ -115,7 +115,9 @@ def run(ctx: Context) -> None:
         ok_sc = bool(firsts)
         for n in firsts:
             owner = norm_text(n.value)
-            g = _g12(dfc, n)
+            from .common import expand_locals as _x12, facts as _f12
+            g = _f12(ctx, dfc, n)
+            owner = norm_text(_x12(ctx.flow(dfc), n.value))
             ok_sc = ok_sc and ((f"len({owner}) == 0", False) in g or (f"len({owner}) >= 1", True) in g or (f"len({owner}) > 0", True) in g
                                or (f"len({owner}) == 1", True) in g or (owner, True) in g)
         ctx.check('R12.3', ok_sc, "dimensions_from_coords skips a scalar coordinate: after isel(time=i) the time coordinate has no dimension, and ocean_floor "
